@@ -1,1 +1,134 @@
-// harness file circular (included under cfg(kani) from /repo)
+// C14 — hook H2b: `crate::helpers::buffers::circular::verif_kani` (the cursors are private fields).
+//
+// INDUCTIVE STEP: from an ARBITRARY state satisfying the representation invariant I (any cursor
+// positions incl. wrap-around, any contents, open or closed) one arbitrary operation
+// (write of a symbolic message / take / close) is executed by the real code, and afterwards
+// (1) I holds again and (2) the abstract queue changed exactly as a FIFO byte queue would.
+// I holds after `new` (base case, separate harness), so the two together cover operation
+// histories of any length for each instantiated (capacity, write size, read size).
+use super::*;
+use crate::verif_kani::common::*;
+
+macro_rules! circular_step {
+    ($modname:ident, $cap:expr, $ws:expr, $rs:expr, $base:ident, $write:ident, $take:ident, $close:ident) => {
+        pub(crate) mod $modname {
+            use super::*;
+            const CAP: usize = $cap;
+            const WS: usize = $ws;
+            const RS: usize = $rs;
+
+            /// (buffer, ghost length, copy of the data, read cursor)
+            fn arbitrary_state() -> (CircularBuf, usize, [u8; CAP], usize, bool) {
+                let read: usize = kani::any();
+                let write: usize = kani::any();
+                let closed: bool = kani::any();
+                let data: [u8; CAP] = kani::any();
+                kani::assume(read < 2 * CAP && write < 2 * CAP && read % WS == 0 && write % WS == 0);
+                let len = (write + 2 * CAP - read) % (2 * CAP);
+                kani::assume(len <= CAP);
+                let buf = CircularBuf { write, read, read_size: RS, write_size: WS, closed, data: data.to_vec() };
+                (buf, len, data, read, closed)
+            }
+            fn invariant(b: &CircularBuf) -> usize {
+                assert!(b.read < 2 * CAP && b.write < 2 * CAP, "cursors stay in [0, 2*capacity)");
+                assert!(b.read % WS == 0 && b.write % WS == 0, "cursors stay aligned to the write size");
+                assert!(b.data.len() == CAP && b.read_size == RS && b.write_size == WS);
+                let len = (b.write + 2 * CAP - b.read) % (2 * CAP);
+                assert!(len <= CAP, "never more than capacity bytes queued");
+                len
+            }
+            /// i-th byte of the abstract queue
+            fn q(data: &[u8], read: usize, i: usize) -> u8 {
+                data[(read + i) % CAP]
+            }
+
+            harness! {
+                #[kani::unwind(10)]
+                fn $base() {
+                    let b = CircularBuf::new(CAP, WS, RS);
+                    assert!(invariant(&b) == 0 && !b.closed);
+                    assert!(b.len() == 0 && !b.can_read() && b.can_write() && b.capacity() == CAP);
+                    std::mem::forget(b);
+                    kani::cover!(true);
+                }
+            }
+
+            harness! {
+                #[kani::unwind(10)]
+                fn $write() {
+                    let (mut b, len, old, read, closed) = arbitrary_state();
+                    assert!(b.len() == len, "len() is the queue length");
+                    assert!(b.can_write() == (!closed && CAP - len >= WS), "can_write iff open and one more message fits");
+                    assert!(b.can_read() == ((closed && len > 0) || len >= RS), "can_read iff a full read block, or closed and non-empty");
+                    kani::assume(b.can_write());
+                    let msg: [u8; WS] = kani::any();
+                    b.next().write(&msg[..]);
+                    let nlen = invariant(&b);
+                    assert!(nlen == len + WS && b.read == read && !b.closed, "a write appends exactly one message");
+                    let i: usize = kani::any();
+                    kani::assume(i < nlen);
+                    let expect = if i < len { q(&old, read, i) } else { msg[i - len] };
+                    assert!(q(&b.data, b.read, i) == expect, "queue == old queue ++ message");
+                    kani::cover!(read >= CAP);
+                    kani::cover!((read % CAP) + len + WS > CAP); // the write wraps around
+                    std::mem::forget(b);
+                }
+            }
+
+            harness! {
+                #[kani::unwind(10)]
+                fn $take() {
+                    let (mut b, len, old, read, closed) = arbitrary_state();
+                    let readable = (closed && len > 0) || len >= RS;
+                    let out = b.take();
+                    let n = if readable { if len < RS { len } else { RS } } else { 0 };
+                    assert!(out.len() == n, "take returns read_size bytes, the remainder after close, or nothing");
+                    assert!(n % WS == 0, "always whole messages");
+                    let nlen = invariant(&b);
+                    assert!(nlen == len - n && b.closed == closed);
+                    let i: usize = kani::any();
+                    if i < n {
+                        assert!(out[i] == q(&old, read, i), "the oldest bytes, in order");
+                    }
+                    let j: usize = kani::any();
+                    if j < nlen {
+                        assert!(q(&b.data, b.read, j) == q(&old, read, n + j), "the rest of the queue is untouched");
+                    }
+                    kani::cover!(n > 0 && ((read % CAP) + n > CAP || CAP % RS == 0)); // the read wraps around (when alignment allows it)
+                    kani::cover!(closed && n > 0 && (n < RS || WS == RS));
+                    kani::cover!(n == 0);
+                    std::mem::forget(out);
+                    std::mem::forget(b);
+                }
+            }
+
+            harness! {
+                #[kani::unwind(10)]
+                fn $close() {
+                    let (mut b, len, old, read, closed) = arbitrary_state();
+                    kani::assume(!closed);
+                    b.close();
+                    assert!(b.is_closed() && !b.can_write());
+                    assert!(invariant(&b) == len && b.read == read);
+                    assert!(b.can_read() == (len > 0), "after close every remainder can be read");
+                    let i: usize = kani::any();
+                    if i < len {
+                        assert!(q(&b.data, b.read, i) == q(&old, read, i));
+                    }
+                    std::mem::forget(b);
+                    kani::cover!(len > 0 && (len < RS || WS == RS));
+                }
+            }
+        }
+    };
+}
+
+circular_step!(c4_2_2, 4, 2, 2, q14_base, q14_write_step, q14_take_step, q14_close_step);
+circular_step!(c4_2_4, 4, 2, 4, q14_base, q14_write_step, q14_take_step, q14_close_step);
+circular_step!(c6_2_4, 6, 2, 4, q14_base, q14_write_step, q14_take_step, q14_close_step);
+circular_step!(c6_3_3, 6, 3, 3, q14_base, q14_write_step, q14_take_step, q14_close_step);
+circular_step!(c3_1_2, 3, 1, 2, q14_base, q14_write_step, q14_take_step, q14_close_step);
+circular_step!(c8_2_4, 8, 2, 4, q14_base, q14_write_step, q14_take_step, t14_close_step);
+circular_step!(c8_1_8, 8, 1, 8, t14_base, t14_write_step, t14_take_step, t14_close_step);
+circular_step!(c16_4_8, 16, 4, 8, t14_base, t14_write_step, t14_take_step, t14_close_step);
+circular_step!(c12_3_6, 12, 3, 6, t14_base, t14_write_step, t14_take_step, t14_close_step);
